@@ -513,6 +513,7 @@ static void check_files_kept(const struct dirsnap *before, const char *why)
 }
 
 size_t __sanitizer_get_current_allocated_bytes(void) __attribute__((weak));
+int __lsan_do_recoverable_leak_check(void) __attribute__((weak));
 
 static long heap_now(void)
 {
@@ -1610,6 +1611,15 @@ static void scenario(const char *params)
         snprintf(sig, sizeof sig, "C08/heap-leak/after=%s/tp=%s", faults_descr(), g_tp);
         VIOL(sig, "the heap does not return to its steady state although no descriptor is left: %s (+%ld per repetition); "
                   "scenario %s, injected fault(s): %s", heaptxt, h3 - h2, g_sc, faults_descr());
+    }
+    /* sanitizer build with leak detection enabled: blocks that nothing points to any more (one-off leaks included) */
+    if (__lsan_do_recoverable_leak_check && param_int(params, "lsan", 0)) {
+        mc_count(6, 1);
+        if (__lsan_do_recoverable_leak_check() != 0 && !heap_leak && !full.nleak) {
+            snprintf(sig, sizeof sig, "C08/heap-leak-unreachable/after=%s/tp=%s", faults_descr(), g_tp);
+            VIOL(sig, "LeakSanitizer: heap blocks allocated during the scenario are unreachable after every socket was "
+                      "closed (report on stderr); scenario %s, injected fault(s): %s", g_sc, faults_descr());
+        }
     }
     mc_observe("end: faults=%s lib_fds=%d leak=%d %s", faults_descr(), lib_now, heap_leak, heaptxt);
     mc_outcome("sc=%s tp=%s faults=%s failed_steps=%d lib_fds=%d fdleak=%s heapdelta=%ld leak=%d", g_sc, g_tp, faults_descr(),
